@@ -9,6 +9,7 @@ import (
 	"pgregory.net/rapid"
 
 	"verif/harness/ref/reft2"
+	"verif/harness/stats"
 )
 
 // ---------------------------------------------------------------------------
@@ -51,6 +52,26 @@ type body struct {
 func is16(v float64) bool { s := v * 65536; return s == math.Trunc(s) }
 
 func inRange(v float64) bool { return v >= -32768 && v < 32768 && is16(v) }
+
+// ---------------------------------------------------------------------------
+// classes excluded when they are listed as known findings (the search then
+// continues behind them); keys are used in known-findings.txt
+
+const (
+	keyRollN0 = "roll-n0"             // roll with N = 0 rejected
+	keyClamp  = "operand-above-32000" // path operands clamped to +-32000
+	keyMul    = "mul-integer-parts"   // mul computed on truncated operands
+	keyFlex1  = "flex1-endpoint"      // flex1 does not return to the start coordinate
+)
+
+// excluded reports whether the class is listed; it counts the exclusion.
+func excluded(key string) bool {
+	if stats.IsListed("C05", key) {
+		stats.Excluded(key)
+		return true
+	}
+	return false
+}
 
 // ---------------------------------------------------------------------------
 // flat program generator
@@ -206,7 +227,7 @@ func (g *pgen) value(v float64, depth int) {
 		fs := []float64{1, 2, 3, 4, 5, -1, -2, -3, 0.5, 0.25, -0.5, 8, 16, 1.5}
 		b := fs[g.intn(0, len(fs)-1, "mf")]
 		a := v / b
-		if !g.room(2) || !inRange(a) || a*b != v {
+		if !g.room(2) || !inRange(a) || a*b != v || excluded(keyMul) {
 			break
 		}
 		if g.chance(50) {
@@ -432,7 +453,7 @@ func (g *pgen) value(v float64, depth int) {
 		}
 		b := 1 + float64(g.intn(1, 65535, "mb"))/65536
 		a := math.Round(v/b*65536) / 65536
-		if !inRange(a) {
+		if !inRange(a) || excluded(keyMul) {
 			break
 		}
 		g.lit(a)
@@ -473,7 +494,7 @@ func (g *pgen) values(vs []float64) {
 			g.value(v, 0)
 		}
 	}
-	if g.pArith > 0 && g.room(2) && g.chance(3) {
+	if g.pArith > 0 && g.room(2) && g.chance(3) && !excluded(keyRollN0) {
 		// roll with N = 0 is a defined no-op
 		g.lit(0)
 		g.lit(float64(g.intn(-3, 3, "r0")))
@@ -497,7 +518,9 @@ func (g *pgen) coord() float64 {
 	case c < 97:
 		v = float64([]int{108, 107, -107, -108, 1131, 1132, -1131, -1132, 255, 256, -256}[g.intn(0, 10, "cb")])
 	default:
-		if g.allowBig {
+		if g.allowBig && excluded(keyClamp) {
+			v = float64(g.intn(-31999, 31999, "c4"))
+		} else if g.allowBig {
 			v = float64(g.intn(-32768, 32767, "c4"))
 			if g.chance(30) {
 				v = float64([]int{32767, -32768, 32001, -32001, 32000, -32000}[g.intn(0, 5, "ch")])
@@ -690,6 +713,9 @@ func (g *pgen) pathStmt(allowFlex bool) {
 	op := pathOps[g.intn(0, len(pathOps)-1, "pop")]
 	if !allowFlex && (op == reft2.OpFlex || op == reft2.OpFlex1) {
 		op = reft2.OpHFlex
+	}
+	if op == reft2.OpFlex1 && excluded(keyFlex1) {
+		op = reft2.OpFlex
 	}
 	var vs []float64
 	switch op {
@@ -988,17 +1014,13 @@ func appendTok(out []byte, t tok, tb subrTables) []byte {
 			n, op = tb.nGlobal, reft2.OpCallGSubr
 		}
 		bias := reft2.Bias(n)
-		v := n - bias
-		switch t.which {
-		case 1:
-			if -1-bias >= -32768 {
-				v = -1 - bias
-			}
-		case 2:
-			if n+1000-bias <= 32767 {
-				v = n + 1000 - bias
+		var cands []int
+		for _, idx := range []int{n, -1, n + 1000} {
+			if v := idx - bias; v >= -32768 && v <= 32767 {
+				cands = append(cands, v)
 			}
 		}
+		v := cands[t.which%len(cands)]
 		out = reft2.AppendNumber(out, float64(v), reft2.EncAuto)
 		return reft2.AppendOp(out, op)
 	case tCall:
